@@ -125,6 +125,7 @@ def kinds():
         'enc2': lambda o, a: o.enc(a['b2']),
         'dec1': lambda o, a: o.dec(a['b1']),
         'bad': lambda o, a: o.enc(a['b1'][:-1]),
+        'baddec': lambda o, a: o.dec(a['b1'][:-1]),
     }
     K['aes128'] = Kind('aes128', lambda a: aes.AES(a['k16']), cc, patches='aes128')
     K['aes128.other'] = Kind('aes128.other', lambda a: (aes.AES(a['k16b']).enc(a['b2']), aes.AES(a['k16']))[1], cc, fresh=lambda a: aes.AES(a['k16']), patches='aes128')
@@ -192,15 +193,15 @@ CALLS = {
     'hmac_sha1': ['m1', 'm2'],
     'md6': ['m1', 'm2', 'bits', 'long', 'bad'], 'md6.seq': ['m1', 'm2', 'bits', 'long', 'bad'],
     'skein256': ['m1', 'm2', 'bits', 'long', 'upd', 'bad'], 'skein256.tree': ['m1', 'long', 'upd'],
-    'aes128': ['enc1', 'enc2', 'dec1', 'bad'], 'aes128.other': ['enc1', 'dec1'], 'des': ['enc1', 'enc2', 'dec1', 'bad'], 'tdea': ['enc1', 'dec1', 'bad'],
-    'serpent': ['enc1', 'enc2', 'dec1', 'bad'], 'threefish256': ['enc1', 'enc2', 'dec1', 'bad'],
+    'aes128': ['enc1', 'enc2', 'dec1', 'bad', 'baddec'], 'aes128.other': ['enc1', 'dec1'], 'des': ['enc1', 'enc2', 'dec1', 'bad', 'baddec'], 'tdea': ['enc1', 'dec1', 'bad', 'baddec'],
+    'serpent': ['enc1', 'enc2', 'dec1', 'bad', 'baddec'], 'threefish256': ['enc1', 'enc2', 'dec1', 'bad', 'baddec'],
     'ecb': ['enc1', 'enc2', 'encblk', 'decenc', 'baddec'], 'cbc': ['enc1', 'enc2', 'encblk', 'decenc', 'baddec'], 'ctr': ['enc1', 'enc2', 'encblk', 'decenc'],
     'cts_ecb': ['e1', 'e2', 'd'], 'cts_cbc': ['e1', 'e2', 'd'],
     'salsa20': ['e1', 'e2', 'long', 'd1'], 'chacha': ['e1', 'e2', 'long', 'd1'],
     'crc32': ['c1', 'c2', 'fix', 'gen'], 'nilsimsa': ['a', 'b', 'upd'], 'tlsh': ['a', 'b', 'short', 'upd'], 'tlsh.singleton': ['a', 'b', 'short', 'upd'],
 }
 # calls whose own result is not a value to compare (they only disturb state)
-NOISE = {'stream', 'upd', 'rekey', 'duplex', 'badrate'}      # duplex() is a stateful construction by design: only used as a disturbing call
+NOISE = {'stream', 'upd', 'rekey', 'duplex', 'badrate', 'baddec'}      # duplex() is a stateful construction by design: only used as a disturbing call
 
 
 class History(Case):
